@@ -33,6 +33,11 @@ pub struct ElfSpec {
     /// the data segment is loaded this many pages above where a flat layout would put it; the
     /// loader leaves an inaccessible reserved gap in between
     pub data_gap_pages: u64,
+    /// link-time base address (non-PIE executables): every virtual address in the image is
+    /// link_base + offset, and the image must be mapped exactly there
+    pub link_base: u64,
+    /// the .text *section* starts this many bytes into the text segment (mid-page) ...
+    pub text_sec_skip: u64,
 }
 
 #[derive(Clone, Debug)]
@@ -156,7 +161,7 @@ pub fn build(spec: &ElfSpec) -> ElfImage {
         dynv.push((DT_SONAME, soname_idx));
     }
     let strtab_idx = dynv.len();
-    dynv.push((DT_STRTAB, dynstr_off));
+    dynv.push((DT_STRTAB, spec.link_base + dynstr_off));
     dynv.push((DT_STRSZ, dynstr_len));
     let mut debug_idx = None;
     if spec.dt_debug {
@@ -190,8 +195,9 @@ pub fn build(spec: &ElfSpec) -> ElfImage {
     if spec.with_pt_phdr {
         ph[0].3 = phnum * 56;
     }
+    let lb = spec.link_base;
     for (i, (ty, fl, o, sz, al, dv)) in ph.iter().enumerate() {
-        phdr(&mut f, phoff as usize + i * 56, *ty, *fl, *o, *o + *dv, *sz, *al);
+        phdr(&mut f, phoff as usize + i * 56, *ty, *fl, *o, lb + *o + *dv, *sz, *al);
     }
 
     // sections
@@ -213,22 +219,23 @@ pub fn build(spec: &ElfSpec) -> ElfImage {
         if spec.rodata_before_text {
             // reuses the name ".text" minus the dot-t: points at "text" inside the string table; the
             // name is irrelevant, type/flags are what matters: PROGBITS, ALLOC, not EXECINSTR
-            shdr(&mut f, base + i * 64, n_text + 1, 1, 2, 0x300, 0x40, 0, 1, 0);
+            shdr2(&mut f, base + i * 64, n_text + 1, 1, 2, lb + 0x300, 0x300, 0x40, 0, 1, 0);
             i += 1;
         }
-        shdr(&mut f, base + i * 64, n_text, 1, 2 | 4, text_off, text_len, 0, 16, 0);
+        let skip = spec.text_sec_skip.min(text_len - 1);
+        shdr2(&mut f, base + i * 64, n_text, 1, 2 | 4, lb + text_off + skip, text_off + skip, text_len - skip, 0, 16, 0);
         i += 1;
         if spec.build_id.is_some() {
-            shdr(&mut f, base + i * 64, n_note, 7, 2, note_off, note_len, 0, 4, 0);
+            shdr2(&mut f, base + i * 64, n_note, 7, 2, lb + note_off, note_off, note_len, 0, 4, 0);
             i += 1;
         }
         let shstr_idx = i;
         shdr(&mut f, base + i * 64, n_shstr, 3, 0, shstr_off, names.len() as u64, 0, 1, 0);
         i += 1;
         let dynstr_sec_idx = i + 1;
-        shdr2(&mut f, base + i * 64, n_dynamic, 6, 3, dyn_off + gap, dyn_off, dyn_len, dynstr_sec_idx as u32, 8, 16);
+        shdr2(&mut f, base + i * 64, n_dynamic, 6, 3, lb + dyn_off + gap, dyn_off, dyn_len, dynstr_sec_idx as u32, 8, 16);
         i += 1;
-        shdr(&mut f, base + i * 64, n_dynstr, 3, 2, dynstr_off, dynstr_len, 0, 1, 0);
+        shdr2(&mut f, base + i * 64, n_dynstr, 3, 2, lb + dynstr_off, dynstr_off, dynstr_len, 0, 1, 0);
         i += 1;
         shnum = i as u16;
         put16(&mut f, 62, shstr_idx as u16);
@@ -239,11 +246,11 @@ pub fn build(spec: &ElfSpec) -> ElfImage {
     f[4] = 2; // 64-bit
     f[5] = 1; // LE
     f[6] = 1;
-    put16(&mut f, 16, 3); // ET_DYN
+    put16(&mut f, 16, if spec.link_base != 0 { 2 } else { 3 }); // ET_EXEC / ET_DYN
     put16(&mut f, 18, 62); // x86_64
     put32(&mut f, 20, 1);
     let entry_off = text_off + 0x10;
-    put64(&mut f, 24, entry_off);
+    put64(&mut f, 24, spec.link_base + entry_off);
     put64(&mut f, 32, phoff);
     put64(&mut f, 40, if spec.sections { shoff } else { 0 });
     put32(&mut f, 48, 0);
